@@ -228,6 +228,8 @@ pub struct World {
     pub last_live: Vec<std::collections::BTreeSet<String>>,
     /// a label retired earlier in this lifetime was created again (process-global caches may be stale)
     pub id_reused: bool,
+    /// sequence number of the next generated event (tags are K_BASE + seq, never reused)
+    pub next_seq: usize,
 }
 
 impl World {
@@ -255,6 +257,7 @@ impl World {
             retired: vec![Default::default(); cfg.shard_count],
             last_live: vec![Default::default(); cfg.shard_count],
             id_reused: false,
+            next_seq: 0,
         };
         if use_clock {
             w.db.set_clock_secs(base_secs)?;
@@ -269,37 +272,40 @@ impl World {
         Ok(w)
     }
 
-    pub fn store(&mut self, ev: &Ev) -> Result<Resp, Problem> {
-        let td = self.types[ev.ty].clone();
-        let seq = self.model.events.len();
+    /// Build the model event and the command line for a generated event (nothing is sent).
+    pub fn prepare(&self, ev: &Ev) -> (MEv, String) {
+        let td = &self.types[ev.ty];
+        let seq = self.next_seq;
         let k = K_BASE + seq as i64;
         let ctx = ctx_name(ev.ctx);
-        let payload = payload_json(&td, k, ev, seq);
-        let r = self.db.cmd(&store_cmd(&td, &ctx, &payload))?;
-        if !r.ok() {
-            return Err(Problem::Unexpected(format!(
-                "conforming STORE rejected: {} -> {} {} {:?}",
-                store_cmd(&td, &ctx, &payload),
-                r.status,
-                r.message,
-                r.parse_error
-            )));
-        }
+        let payload = payload_json(td, k, ev, seq);
+        let cmd = store_cmd(td, &ctx, &payload);
         let shard = shard_of(&ctx, self.cfg.shard_count);
-        self.model.events.push(MEv {
-            seq,
-            k,
-            ty: ev.ty,
-            ctx,
-            vals: expected_vals(&td, ev),
-            secs: self.clock,
-            shard,
-        });
+        (MEv { seq, k, ty: ev.ty, ctx, vals: expected_vals(td, ev), secs: self.clock, shard }, cmd)
+    }
+
+    /// Record an event as applied in the model (after its STORE was acknowledged).
+    pub fn commit(&mut self, m: MEv) {
+        let shard = m.shard;
+        self.model.events.push(m);
         self.mem_count[shard] += 1;
         if self.mem_count[shard] >= self.cfg.capacity() {
             self.mem_count[shard] = 0;
             self.auto_rotations += 1;
         }
+    }
+
+    pub fn store(&mut self, ev: &Ev) -> Result<Resp, Problem> {
+        let (m, cmd) = self.prepare(ev);
+        self.next_seq += 1;
+        let r = self.db.cmd(&cmd)?;
+        if !r.ok() {
+            return Err(Problem::Unexpected(format!(
+                "conforming STORE rejected: {} -> {} {} {:?}",
+                cmd, r.status, r.message, r.parse_error
+            )));
+        }
+        self.commit(m);
         Ok(r)
     }
 
